@@ -12,7 +12,7 @@ EXPLANATION = ("static analysis (MIR abstract interpretation): the two legs are 
 ASSUMPTIONS = ["a failing sub-message / self-call aborts the whole transaction (CosmWasm VM)",
                "numeric equality of LP minted in the two executions follows from the shared code path; the <=1 unit residue of an odd "
                "amount is not decided"]
-TECHNIQUE = "static analysis: field-agreement of message construction, buffer typestate by cut-sets, guard cut-sets"
+TECHNIQUE = "static analysis: field-agreement of message construction, buffer typestate by cut-sets, guard cut-sets, expand-own-position cut shared with C08"
 LEVEL_TEXT = ("Structural obligations over all paths of ProvideLiquidity (single-asset arm) and reply: wiring of 6+6 fields and both funds "
               "vectors, exactly one half rounded down swapped, reply mode, buffer save/load/validate/remove pairing, refusal guards.")
 LEVEL_NOTE = "Not decided: numeric LP equality and the residue bound (follow from the shared path / floor(D/2)*2<=D)."
